@@ -9,26 +9,33 @@
        observe_vm (run_compiled p m) = observe_ref (run_module p n)
 
    where run_module is the reference evaluator over names (Ref.v),
-   run_compiled p = VM.run (compile_prog (fold_prog p)) is the model of the
+   run_compiled p = VM.run (compile_prog (number_prog (fold_prog p))) is the model of the
    production pipeline (Compile.v mirrors resolve.go + compile.go, VM.v mirrors
    interp.go) and an observation is (trace of host-visible effects with rendered
    argument values, final heap and cells, verdict = final globals | failure at a
    source position | unsupported).
 
    PROVED below: codegen_correct_partial -- the same equation for every program
-   of the fragment `in_fragment p = true` (Frag.v: all expressions except `not
-   in`, dict displays, lambda, comprehensions, slices and calls with named / * /
-   ** arguments; all statements except load and assignments to sequence / field
-   targets; def with plain positional parameters, not nested inside another
-   def), for all fuel on both sides, by simulation (induction on the evaluator's fuel;
-   the machine side is a small-step execution sequence).
+   of the fragment `in_fragment p = true` (Frag.v, a boolean predicate on the
+   syntax): ALL expressions except lambda, comprehensions and calls with * / **
+   arguments (i.e. names, literals, unary / binary operators incl. `not in`,
+   and / or / not / conditional, tuple / list / dict displays, index, slice,
+   dot, calls with positional and named arguments); ALL statements except load
+   and assignment to a field (x.f = ...): expression statements, assignment and
+   augmented assignment to names / indexes / nested sequences of targets, if,
+   while, for, break, continue, pass, return, def with every kind of parameter
+   (defaults evaluated at definition, *args, **kwargs, keyword-only) whose
+   variables no nested function mentions and which is not nested inside another
+   def.  For all fuel on both sides, by simulation: induction on the evaluator's
+   fuel, the machine side is a small-step execution sequence; the built-in
+   library (operators on values, built-in functions, argument binding) is used
+   opaquely, i.e. the theorem holds for ANY behaviour of those primitives.
    MISSING from the full statement: comprehensions (block-local slots), closures
-   (cells / free variables), dict displays, named / * / ** arguments, parameter
-   defaults, sequence targets, `not in`, load, the `+`-chain literal folding of
-   fcomp.plus (codegen_correct_partial is about compile_prog p; fold_prog is the
-   identity on programs without adjacent addable literals, see
-   codegen_correct_partial_folded).  Those constructs are covered on every run
-   by the ties (a), (b), (c) of checks/c01.py only. *)
+   / lambda (cells and free variables), * / ** call arguments, field targets,
+   load, and the `+`-chain literal folding of fcomp.plus (codegen_correct_partial
+   is about compile_prog p; fold_prog and the slot-numbering pass number_prog
+   are the identity on such programs, see codegen_correct_partial_folded).  Those
+   constructs are covered on every run by ties (a), (b), (c) of checks/c01.py. *)
 From Coq Require Import ZArith String List Bool.
 From SV Require Import C01.Syntax C01.Values C01.Ref C01.VM C01.Compile C01.Frag C01.Proofs C01.ProofsFuns.
 Import ListNotations.
@@ -49,7 +56,7 @@ Qed.
 (* the model of the whole pipeline, including the literal-folding pass of fcomp.plus *)
 Theorem codegen_correct_partial_folded :
   forall p : program,
-    in_fragment p = true -> fold_prog p = p ->
+    in_fragment p = true -> number_prog (fold_prog p) = p ->
     forall n m : nat,
       ob_verdict (observe_ref (run_module p n)) <> OutOfFuel ->
       ob_verdict (observe_vm (run_compiled p m)) <> OutOfFuel ->
@@ -71,6 +78,38 @@ Theorem codegen_never_stuck_partial :
 Proof.
   intros p Hf. apply andb_true_iff in Hf. destruct Hf as [Hok Hflat].
   exact (never_stuck_lemma p (funs_ok_flat p Hok Hflat) Hok).
+Qed.
+
+(* ---- the FULL statement does not hold for the code as it is.
+   Witness (replayed on the real implementation by checks/c01.py, corpus entry
+   "comprehension-variable-stale-on-reevaluation"):
+
+       def f():
+           r = []
+           for i in range(2):
+               r.append([y for x in [1] for y in ([z] if i else [0]) for z in [5]])
+           return r
+       trace(f())
+
+   The variables of a comprehension get slots of the enclosing function's frame
+   that are never reset, so the second evaluation of the comprehension in the
+   same activation reads the value `z` kept from the first one; under the
+   specification ("it is a dynamic error to evaluate a reference to a local
+   variable before it has been bound ... The same is also true for nested loops
+   in comprehensions") the reference to z fails.  Both the model of the
+   pipeline and the real pipeline print [[0], [5]]. *)
+Definition P (l c : nat) : pos := (l, c).
+Definition stale_witness : program :=
+  {| p_opts := {| o_set := false; o_while := false; o_recursion := false; o_toplevel := false |}; p_body := [(SDef 0 "f" [] [(SAssign (TName "r" (P 2 5)) (EList []) (P 2 7)); (SFor (TName "i" (P 3 9)) (ECall (EName "range" (P 3 14)) [(APos (EInt (2)%Z))] (P 3 19)) [(SExpr (ECall (EDot (EName "r" (P 4 9)) "append" (P 4 10)) [(APos (EComp false (EName "y" (P 4 19)) (EInt 0%Z) (P 0 0) [(CFor (TName "x" (P 4 25)) (EList [(EInt (1)%Z)]) (P 4 21)); (CFor (TName "y" (P 4 38)) (EParen (ECond (EName "i" (P 4 51)) (EList [(EName "z" (P 4 45))]) (EList [(EInt (0)%Z)]))) (P 4 34)); (CFor (TName "z" (P 4 67)) (EList [(EInt (5)%Z)]) (P 4 63))] []))] (P 4 17)))] (P 3 5)); (SReturn (Some (EName "r" (P 5 12))))] (P 1 1)); (SExpr (ECall (EName "trace" (P 6 1)) [(APos (ECall (EName "f" (P 6 7)) [] (P 6 8)))] (P 6 6)))] |}.
+
+Theorem codegen_correct_refuted :
+  exists (p : program) (n m : nat),
+    ob_verdict (observe_ref (run_module p n)) <> OutOfFuel /\
+    ob_verdict (observe_vm (run_compiled p m)) <> OutOfFuel /\
+    observe_vm (run_compiled p m) <> observe_ref (run_module p n).
+Proof.
+  exists stale_witness, 200, 5000. vm_compute.
+  repeat split; discriminate.
 Qed.
 
 (* ---- the hypotheses are satisfiable: a program with a function, a for loop with
@@ -101,7 +140,7 @@ Definition example_prog : program :=
 Example example_in_fragment : in_fragment example_prog = true.
 Proof. reflexivity. Qed.
 
-Example example_fold : fold_prog example_prog = example_prog.
+Example example_fold : number_prog (fold_prog example_prog) = example_prog.
 Proof. reflexivity. Qed.
 
 (* both sides run to completion (here: a dynamic error at the last statement after
